@@ -73,6 +73,8 @@ def build(cc, ssets, fset, depth, kind, with_default):
         kw["default"] = k["default"]
     if style == "named-field":
         kw["name"] = DISPLAY
+    if style == "keyed":
+        kw["key"] = FKEY            # the key is also handed to the constructor (the documented idiom)
     field = k["mk"](cc, **kw)
     if style == "late":
         # the field joins its schema after the schema has built a configuration and served a document load
@@ -103,7 +105,7 @@ def build(cc, ssets, fset, depth, kind, with_default):
             if style == "auto":
                 cur = getattr(cur, KEYS[lvl - 1])
             else:
-                sub = cc.Schema(env=envarg(ssets[lvl], lvl))
+                sub = cc.Schema(env=envarg(ssets[lvl], lvl), **({"key": KEYS[lvl - 1]} if style == "keyed" else {}))
                 setattr(cur, KEYS[lvl - 1], sub)
                 cur = sub
         setattr(cur, FKEY, field)
@@ -147,11 +149,18 @@ def ref_name(ssets, fset, depth):
 
 def plausible_names(depth):
     F = FKEY.upper()
-    parts = [PREFIX[0], PREFIX[1], PREFIX[2], KEYS[0].upper(), KEYS[1].upper(), PREFIX[0].upper(), PREFIX[1].upper()]
+    parts = [PREFIX[0], PREFIX[1], PREFIX[2], KEYS[0].upper(), KEYS[1].upper()]
     names = {F, FNAMED, "_" + F, FKEY, DISPLAY.upper(), DISPLAY, DISPLAY.upper().replace(" ", "_")}
     for pre in (PREFIX[0], PREFIX[0] + "_" + KEYS[0].upper(), PREFIX[1]):
         names.add(pre + "_" + DISPLAY.upper())
         names.add(pre + "_" + DISPLAY.upper().replace(" ", "_"))
+    # the upper-cased spellings of the mixed-case prefixes, in the positions a derived name can have
+    K0, K1 = KEYS[0].upper(), KEYS[1].upper()
+    for pre in (PREFIX[0].upper(), PREFIX[1].upper()):
+        for mid in ("", "_" + K0, "_" + K0 + "_" + K1, "_" + K1):
+            names.add(pre + mid + "_" + F)
+    names.add(PREFIX[0].upper() + "_" + PREFIX[1].upper() + "_" + F)
+    names.add((PREFIX[0] + "_" + K0 + "_" + F).upper())
     for r in range(1, 4):
         for combo in itertools.permutations(parts, r):
             names.add("_".join(combo) + "_" + F)
@@ -216,6 +225,9 @@ def jobs(tier):
         for root in SCHEMA_SET:
             ssets = [root] + ["absent"] * (depth - 1)
             out.append({"name": "late/d%d/%s" % (depth, "-".join(ssets)), "depth": depth, "ssets": ssets, "kinds": few, "tier": tier, "style": "late"})
+    for depth in (1, 2):
+        for ssets in itertools.product(SCHEMA_SET, repeat=depth):
+            out.append({"name": "keyed/d%d/%s" % (depth, "-".join(ssets)), "depth": depth, "ssets": list(ssets), "kinds": few[:1], "tier": tier, "style": "keyed"})
     for depth in (1, 2):
         for ssets in itertools.product(SCHEMA_SET, repeat=depth):
             out.append({"name": "named-field/d%d/%s" % (depth, "-".join(ssets)), "depth": depth, "ssets": list(ssets), "kinds": few, "tier": tier, "style": "named-field"})
